@@ -643,6 +643,16 @@ impl Stdfs {
 
             // Recreate links if were not following them
             if !cp.follow && src.is_symlink() {
+                // Copying into a directory might require creating it first
+                if !Stdfs::exists(&dst_path.dir()?) {
+                    Stdfs::mkdir_m(
+                        &dst_path.dir()?,
+                        match dir_mode {
+                            Some(x) => x,
+                            None => StdfsEntry::from(src.path().dir()?)?.mode(),
+                        },
+                    )?;
+                }
                 Stdfs::symlink(dst_path, src.alt())?;
             } else if src.is_dir() {
                 Stdfs::mkdir_m(&dst_path, dir_mode.unwrap_or(src.mode()))?;
